@@ -279,6 +279,7 @@ def hist_c04(seed, cls=None):
     h = _new('c04', seed, spec)
     if not h.fit(1, o, X, y, kw):
         return h
+    X = h.last_X
     # observers must not disturb the mapping: summary() / summary(feature) / history() before transforming
     if rng.random() < 0.5 and h.objs[1].features:
         h.summary(1, rng.choice([None] + list(h.objs[1].features)))
@@ -297,6 +298,7 @@ def hist_c05(seed, cls=None):
     h = _new('c05', seed, spec)
     if not h.fit(1, o, X, y, kw):
         return h
+    X = h.last_X
     for label, fr in probe_frames(rng, o, X, spec, count=5):
         h.transform(1, fr, seen=False, label=label)
     return h
@@ -312,6 +314,7 @@ def hist_c06(seed, cls=None):
     h = _new('c06', seed, spec)
     if not h.fit(1, o, X, y, kw):
         return h
+    X = h.last_X
     if rng.random() < 0.4:
         _random_edits(rng, h, 1, X, n_edits=rng.randint(1, 2))
     if not h.reload(1, 2):
@@ -338,6 +341,7 @@ def hist_c07(seed, cls=None):
     ok = h.fit(1, o, X, y, kw, method='fit_transform')
     if not ok:
         return h
+    X = h.last_X
     ft_event = len(h.events)             # the transform event recorded for fit_transform's output
     o2, X2, y2, kw2 = E.build(spec)
     if h.fit(2, o2, X2, y2, kw2):
@@ -357,7 +361,7 @@ def hist_c08(seed, cls=None):
     o, X, y, kw = E.build(spec)
     h = _new('c08', seed, spec)
     if h.fit(1, o, X, y, kw):
-        h.transform(1, X.copy(deep=True), seen=True, label='train')
+        h.transform(1, h.last_X.copy(deep=True), seen=True, label='train')
     return h
 
 
@@ -368,6 +372,7 @@ def hist_c16(seed, cls=None):
     h = _new('c16', seed, spec)
     if not h.fit(1, o, X, y, kw):
         return h
+    X = h.last_X
     h.transform(1, X.copy(deep=True), seen=True, label='train')
     if rng.random() < 0.35:
         _random_edits(rng, h, 1, X, n_edits=1)
@@ -401,7 +406,9 @@ def _edit_candidates(rng, o, f, X):
         else:
             a, b = rng.sample(non_nan, 2)
             out.append(('group', a, b))
-    if nan_here and non_nan:
+    if non_nan and (nan_here or rng.random() < 0.3):
+        # missing values into an existing group (also for a feature that had none at fit: the edit
+        # declares where future missing values go)
         out.append(('group', float('nan'), rng.choice(non_nan)))
     if non_nan:
         ldr = rng.choice(non_nan)
@@ -449,7 +456,10 @@ def hist_c17(seed, cls=None):
     h = _new('c17', seed, spec)
     if not h.fit(1, o, X, y, kw):
         return h
+    X = h.last_X
     h.transform(1, X.copy(deep=True), seen=True, label='train')
+    if rng.random() < 0.5:
+        h.summary(1)                    # (an observer called before the edits must not freeze anything)
     for step in range(rng.randint(1, 3)):
         if _random_edits(rng, h, 1, X, n_edits=1) == 0:
             continue
@@ -590,6 +600,7 @@ def hist_c19(seed, cls=None):
     o, X, y, kw = E.build(spec)
     if not h.fit(2, o, X, y, kw):
         return h
+    X = h.last_X
     t0 = h.transform(2, X.copy(deep=True), seen=True, label='train')
     for kind in kinds[3:8]:
         thunk = _bad_call(rng, kind, spec, h, 2, fitted=True)
@@ -631,15 +642,44 @@ def sorted_probe_frame(rng, o, X):
     return pd.DataFrame(data)
 
 
+def flat_then_zigzag_multiclass_spec(rng):
+    """A MulticlassCarver sample in which the second class (string order) has the same rate in every
+    modality of an ordinal feature (so that its carver finds no viable grouping and drops the feature)
+    while the rate of the third class zigzags along the ranking."""
+    levels = LETTERS[:rng.choice([4, 5, 6])]
+    per = rng.choice([10, 12])
+    vals, y = [], []
+    for i, lv in enumerate(levels):
+        nb = 2                                         # class 'b': the same count everywhere
+        nc = per // 2 if i % 2 == 0 else 1             # class 'c': high / low / high / ...
+        labs = ['b'] * nb + ['c'] * nc + ['a'] * (per - nb - nc)
+        rng.shuffle(labs)
+        vals += [lv] * per
+        y += labs
+    order = list(range(len(vals)))
+    rng.shuffle(order)
+    spec = {'cls': 'MulticlassCarver',
+            'features': {'o0': {'kind': 'ordinal', 'values': [vals[i] for i in order], 'order': list(levels)},
+                         'q1': {'kind': 'quanti', 'values': [float(rng.randint(0, 5)) for _ in order]}},
+            'y': [y[i] for i in order],
+            'params': {'sort_by': rng.choice(['cramerv', 'tschuprowt']), 'min_freq': [1, 20], 'min_freq_mod': [1, 10], 'max_n_mod': rng.choice([3, 4]),
+                       'dropna': True, 'output_dtype': 'float', 'copy': True}}
+    return spec
+
+
 def hist_c03(seed, cls=None):
     rng = random.Random(seed)
-    spec = random_object_spec(rng, cls or rng.choice(['BinaryCarver', 'ContinuousCarver', 'MulticlassCarver', 'Discretizer',
-                                                      'QuantitativeDiscretizer', 'QualitativeDiscretizer', 'BinaryCarver']))
+    if cls is None and rng.random() < 0.12:
+        spec = flat_then_zigzag_multiclass_spec(rng)
+    else:
+        spec = random_object_spec(rng, cls or rng.choice(['BinaryCarver', 'ContinuousCarver', 'MulticlassCarver', 'Discretizer',
+                                                          'QuantitativeDiscretizer', 'QualitativeDiscretizer', 'BinaryCarver']))
     spec['params']['output_dtype'] = 'float' if rng.random() < 0.8 else 'str'
     o, X, y, kw = E.build(spec)
     h = _new('c03', seed, spec)
     if not h.fit(1, o, X, y, kw):
         return h
+    X = h.last_X
     h.transform(1, X.copy(deep=True), seen=True, label='train')
     if h.objs[1].features:
         h.transform(1, sorted_probe_frame(rng, h.objs[1], X), seen=False, label='sweep')
